@@ -40,6 +40,8 @@ def _v(rec, clause, sig, *a, **k):
 CONFIGS = {
     "plain": dict(shape=(3, 3), bounds="ub-finite", K=None, baseline=None, W=False),
     "full": dict(shape=(2, 3), bounds="lb-mixed", K="vector", baseline="vector", W=True),
+    # module-level functions with the documented string option W="inverse" (weights 1/target, per sample)
+    "inverse": dict(shape=(2, 2), bounds="ub-finite", K=None, baseline="scalar", W="inverse"),
 }
 PROCS = ["gaussian", "poisson", "minvar", "excitation"]
 SOLVERS = {"default": {}, "clarabel": dict(solver="CLARABEL")}
@@ -75,6 +77,8 @@ def units(tier, seed):
     out = []
     for cfg in CONFIGS:
         for proc in PROCS:
+            if cfg == "inverse" and proc in ("excitation", "minvar"):
+                continue
             if proc == "excitation":
                 L = 2 if tier == "quick" else 3
                 solvers = ["default"]
@@ -102,6 +106,17 @@ def _call(est, proc, rows, W, bs, okw, use_W):
     kw = dict(okw)
     if bs != "omit":
         kw["batch_size"] = bs
+    if use_W == "inverse":
+        from dreye.api.optimize import lsq_linear as L
+
+        a = dict(lb=est.lb, ub=est.ub, W="inverse", K=est.K, baseline=est.baseline, return_pred=True)
+        if proc == "minvar":
+            X, Bp, _ = L.lsq_linear_minimize(est.A, rows, **a, **kw)
+        elif proc == "excitation":
+            X, Bp = L.lsq_linear_excitation(est.A, rows, **a, **kw)
+        else:
+            X, Bp = L.lsq_linear(est.A, rows, model=proc, **a, **kw)
+        return np.asarray(X, dtype=float), np.asarray(Bp, dtype=float)
     if use_W:
         est.register_targets(rows, W)
         if proc == "minvar":
@@ -119,7 +134,9 @@ def _call(est, proc, rows, W, bs, okw, use_W):
 def _script(spec, proc, rows, W, bs, okw, use_W):
     s = B.script_est(spec) + "B = np.array(%r)\n" % (np.asarray(rows).tolist(),)
     kw = "".join(", %s=%r" % kv for kv in dict(okw, batch_size=bs).items() if kv[1] != "omit")
-    if use_W:
+    if use_W == "inverse":
+        s += "from dreye.api.optimize.lsq_linear import lsq_linear\nprint(lsq_linear(est.A, B, lb=est.lb, ub=est.ub, W='inverse', K=est.K, baseline=est.baseline, return_pred=True, model=%r%s))\n" % (proc if proc != "minvar" else "gaussian", kw)
+    elif use_W:
         s += "W = np.array(%r)\nest.register_targets(B, W)\n" % (np.asarray(W).tolist(),)
         s += ("est.minimize_variance(%s)\n" % kw[2:]) if proc == "minvar" else ("est.fit(model=%r%s)\n" % (proc, kw))
         s += "print(est.X, est.B)\n"
